@@ -602,6 +602,92 @@ func checkTxnWrappers(p *an.Prog, r *an.Run) {
 		r.Check(len(bad) == 0, "one-txn", "wrapper:"+an.FuncName(w), w.Pos(), "the wrapper returns the transaction's own outcome", "%s", strings.Join(dedup(bad), "; "))
 	}
 	checkRetryClosures(p, r)
+	checkTxnOutcome(p, r, "badger", nil)
+}
+
+// checkTxnOutcome: a driver function that runs a transaction itself reports success only when the transaction did:
+// from the transaction call, along edges other than its success edges, no return of a nil error is reachable (a retry
+// loop that falls out after its last conflict, an error variable shadowed inside the loop). Functions for which only
+// returns true are judged; the obligation is construct-keyed so several properties can share it.
+func checkTxnOutcome(p *an.Prog, r *an.Run, construct string, only func(*ssa.Function) bool) {
+	var bad []string
+	sites := 0
+	for _, w := range badgerPkgFuncs(p) {
+		if only != nil && !only(w) {
+			continue
+		}
+		if _, _, isW := txnWrapperInfo(p, w); isW {
+			continue // judged by one-txn:wrapper
+		}
+		if w.Signature.Results().Len() == 0 || !an.IsErrorType(w.Signature.Results().At(w.Signature.Results().Len()-1).Type()) {
+			continue
+		}
+		var cut []an.Edge
+		var starts []*ssa.BasicBlock
+		var txCalls []ssa.CallInstruction
+		for _, c := range an.Calls(w, false) {
+			f := an.CallObj(c)
+			// write transactions only: a read transaction's error is legitimately mapped (not found -> default value)
+			isTx := an.IsMethod(f, badgerLib, "DB", "Update")
+			if !isTx {
+				if cal := c.Common().StaticCallee(); cal != nil {
+					if _, upd, isW := txnWrapperInfo(p, cal); isW && upd {
+						isTx = true
+					}
+				}
+			}
+			if isTx {
+				txCalls = append(txCalls, c)
+				cut = append(cut, an.ErrEdges(c).Succ...)
+			}
+		}
+		if len(txCalls) == 0 {
+			continue
+		}
+		sites += len(txCalls)
+		cs := an.EdgeSet(cut)
+		for _, c := range txCalls {
+			b := c.Block()
+			for i, sc := range b.Succs {
+				if !cs[an.Edge{From: b, To: sc}] && !an.DeadEdge(b, i) {
+					starts = append(starts, sc)
+				}
+			}
+		}
+		after := an.ReachFrom(starts, cs)
+		an.AllInstrs(w, func(in ssa.Instruction) {
+			ret, ok := in.(*ssa.Return)
+			if !ok || len(ret.Results) == 0 || (w.Recover != nil && ret.Block() == w.Recover) {
+				return
+			}
+			res := an.RetResults(ret)
+			last := res[len(res)-1]
+			if c, isC := last.(*ssa.Const); isC && c.IsNil() {
+				if after[ret.Block()] {
+					bad = append(bad, an.FuncName(w)+" returns a nil error at "+p.Pos(ret.Pos())+" on a path where its transaction has not succeeded (fallen out of a retry loop, a shadowed error variable): the caller takes the write for done")
+				}
+				return
+			}
+			seen := map[ssa.Value]bool{}
+			var walk func(v ssa.Value)
+			walk = func(v ssa.Value) {
+				ph, ok := v.(*ssa.Phi)
+				if !ok || seen[v] {
+					return
+				}
+				seen[v] = true
+				for i, e := range ph.Edges {
+					if c, isC := e.(*ssa.Const); isC && c.IsNil() && after[ph.Block().Preds[i]] {
+						bad = append(bad, an.FuncName(w)+" can return a nil error at "+p.Pos(ret.Pos())+" on a path where its transaction has not succeeded")
+					}
+					walk(e)
+				}
+			}
+			walk(last)
+		})
+	}
+	r.CallSites += sites
+	r.Check(len(bad) == 0 && sites > 0, "txn-outcome", construct, token.NoPos, "a nil error is returned only past the transaction's success edge", "%s (transaction call sites judged: %d)", strings.Join(dedup(bad), "; "), sites)
 }
 
 // checkRetryClosures: a transaction wrapper that may run its function more than once (a conflict retry) needs that
@@ -816,4 +902,113 @@ func isIdentityStringMethod(m *ssa.Function) bool {
 		}
 	}
 	return false
+}
+
+// checkResultsPrivate: what a store driver hands out is the caller's own: no result of a driver method is a slice, map
+// or pointer into the driver's own fields (a result buffer kept between calls, an internal map returned as is). The
+// caller walks the result after the driver's lock is gone; the next call would rewrite it under the caller's feet.
+func checkResultsPrivate(p *an.Prog, r *an.Run) {
+	iface := p.Iface("pool/store", "Store")
+	if iface == nil {
+		r.Undec("result-private", "drivers", token.NoPos, "interface store.Store not found")
+		return
+	}
+	var bad []string
+	methods, results := 0, 0
+	for _, d := range p.Implementations(iface) {
+		if driverKind(d) == "" {
+			continue
+		}
+		ms := types.NewMethodSet(types.NewPointer(d))
+		for i := 0; i < ms.Len(); i++ {
+			m := p.MethodOf(d, ms.At(i).Obj().Name())
+			if m == nil || len(m.Blocks) == 0 || len(m.Params) == 0 {
+				continue
+			}
+			methods++
+			recv := m.Params[0]
+			fromRecv := func(addr ssa.Value) bool {
+				root, _ := an.RootPath(addr)
+				if root == ssa.Value(recv) {
+					return true
+				}
+				if u, ok := root.(*ssa.UnOp); ok && u.Op == token.MUL {
+					return an.Unspill(u) == ssa.Value(recv)
+				}
+				return false
+			}
+			for _, fn := range an.WithAnon(m) {
+				if fn != m {
+					continue
+				}
+				an.AllInstrs(fn, func(in ssa.Instruction) {
+					ret, ok := in.(*ssa.Return)
+					if !ok || (fn.Recover != nil && ret.Block() == fn.Recover) {
+						return
+					}
+					for _, res := range an.RetResults(ret) {
+						switch res.Type().Underlying().(type) {
+						case *types.Slice, *types.Map, *types.Pointer:
+						default:
+							continue
+						}
+						results++
+						seen := map[ssa.Value]bool{}
+						var walk func(v ssa.Value)
+						walk = func(v ssa.Value) {
+							if v == nil || seen[v] {
+								return
+							}
+							seen[v] = true
+							switch t := v.(type) {
+							case *ssa.Phi:
+								for _, e := range t.Edges {
+									walk(e)
+								}
+							case *ssa.Slice:
+								walk(t.X)
+							case *ssa.ChangeType:
+								walk(t.X)
+							case *ssa.Convert:
+								walk(t.X)
+							case *ssa.Call:
+								if b, ok := t.Call.Value.(*ssa.Builtin); ok && an.Ident(b.Name()) == "append" {
+									walk(t.Call.Args[0])
+								}
+							case *ssa.FieldAddr, *ssa.IndexAddr:
+								if fromRecv(t) {
+									bad = append(bad, an.FuncName(m)+" returns at "+p.Pos(ret.Pos())+" the address of the driver's own storage")
+								}
+							case *ssa.Lookup:
+								walk(t.X)
+							case *ssa.UnOp:
+								if t.Op != token.MUL {
+									return
+								}
+								if fromRecv(t.X) {
+									if _, isFA := t.X.(*ssa.FieldAddr); isFA {
+										fname := "?"
+										if fv := an.FieldOf(t.X); fv != nil {
+											fname = fv.Name()
+										}
+										bad = append(bad, an.FuncName(m)+" returns at "+p.Pos(ret.Pos())+" storage held in the driver's field "+fname+" (read at "+p.Pos(t.Pos())+"): the caller uses it after the lock is released while the next call rewrites it")
+									}
+									return
+								}
+								if al, ok := t.X.(*ssa.Alloc); ok {
+									for _, ref := range *al.Referrers() {
+										if st, ok := ref.(*ssa.Store); ok && st.Addr == ssa.Value(al) {
+											walk(st.Val)
+										}
+									}
+								}
+							}
+						}
+						walk(res)
+					}
+				})
+			}
+		}
+	}
+	r.Check(len(bad) == 0 && methods >= 20 && results > 0, "result-private", "drivers", token.NoPos, "no driver method returns a slice, map or pointer into the driver's own fields", "%s (methods judged: %d, reference-typed results: %d)", strings.Join(dedup(bad), "; "), methods, results)
 }
